@@ -399,6 +399,9 @@ PROPAGATING_CALLS = [
     '<core::option::Option<T> as core::ops::try_trait::Try>::branch',
     '<T as core::convert::Into<U>>::into',
     '<T as core::convert::From<T>>::from',
+    'core::result::Result::<T, E>::ok',
+    'core::option::Option::<T>::ok_or',
+    'core::option::Option::<T>::take',
 ]
 
 
